@@ -248,6 +248,8 @@ def form_case(ctx, part, line, b, fpsse, tier):
                 missing_r.setdefault(lk, 'perturbing %s changes %s on the processor but get_r(mem_read=True) = %s' % (loc, sorted(diff)[:4], sorted(rd)))
     if not missing_r and not missing_w:
         part.keys.add(core.h64(line))
+        if len(part.samples) < 3:
+            part.samples.append({'form': line, 'bytes': b.hex(), 'get_r': sorted(rd), 'get_w': sorted(wr)})
         part.outcomes.add(core.h64((tuple(sorted(rd)), tuple(sorted(wr)))))
     for k, d in missing_r.items():
         part.violation('%s missing-read=%s' % (sigbase, k), '%s (%s): %s' % (line, b.hex(), d), {'line': line, 'bytes': b.hex(), 'fpsse': fpsse})
@@ -291,7 +293,6 @@ def run(tier, seed):
     cpu.selftest()
     part = core.run_sharded(shard, (tier, seed), nshards=core.NPROC * 6)
     F = all_forms(tier)
-    part.samples = [{'form': 'adc eax, ebx', 'perturbed': 'cf', 'changed_outputs': ['eax', 'cf', 'of']}, {'form': 'movss xmm1, xmm0', 'perturbed': 'xmm1 (upper lanes are kept)'}]
     rule = ('case = (instruction form, base state, perturbed location): %d forms (integer core of C04 by mnemonic x operand form; %d x87 forms; %d MMX/SSE '
             'forms) x 3 base states x every location of the universe (8 GPRs, CF PF AF ZF SF OF DF, the memory operand / stack slot bytes, ST0-3, XMM0-7, '
             'x87 control word) x 2 alternative values, all executed on the host CPU. A location is a real read iff an output that is written differs between '
